@@ -93,7 +93,8 @@ class C19(Machine):
             steps.append({"op": op, "a": rng.randrange(100), "b": rng.randrange(100),
                           "list": [rng.randrange(100) for _ in range(rng.randint(1, 4))],
                           "taxa": [rng.randrange(100) for _ in range(rng.randint(0, 4))],
-                          "idx": sorted(set(rng.randrange(16) for _ in range(rng.randint(0, 6)))),
+                          # index lists may be unsorted and may name a column twice (it is still selected once)
+                          "idx": ((lambda l: l if rng.random() < 0.4 else sorted(set(l)))([rng.randrange(16) for _ in range(rng.randint(0, 6))])),
                           "size": rng.choice([None, None, 0, 3, 8, 14]), "append": rng.random() < 0.7,
                           "flag": rng.random() < 0.5, "sym": rng.randrange(100),
                           "fop": rng.choice(["extend_matrix", "extend_sequences", "add_sequences", "replace_sequences",
@@ -407,7 +408,9 @@ class C19(Machine):
                     return "refused"
                 return "completed_inadmissible"
             mA.new_character_subset(label=label, character_indices=idx)
-            sA[label] = sorted(idx)
+            sA[label] = sorted(set(idx))
+            if len(set(idx)) < len(idx):
+                rec.probe("repeated_index")
             return "subset"
         if op in ("export_subset", "export_indices"):
             if op == "export_subset":
@@ -418,7 +421,9 @@ class C19(Machine):
                 res = mA.export_character_subset(label if st["flag"] else mA.character_subsets[label])
             else:
                 idx = st["idx"]
-                res = mA.export_character_indices(idx)
+                if len(set(idx)) < len(idx):
+                    rec.probe("repeated_index")
+                res = mA.export_character_indices(tuple(idx) if st["flag"] else list(idx))
             sel = set(idx)
             rows = dict((l, [c for i, c in enumerate(v) if i in sel]) for l, v in rA.items())
             if res.taxon_namespace is not ns:
